@@ -72,6 +72,7 @@ def scenarios(c):
 
 def run(c):
     c.mc_bg('SysTools')
+    c.mc_bg('SysTools', 'SysToolsNegRead', must_fail=True)  # "the first short read is the end of the stream" must be refuted
     c.mc_bg('SysTools', 'SysToolsNeg', must_fail=True)      # the "!safe_file_write()" convention with -1 on error must be refuted
     c.assumptions += ['the process model abstracts cryptography (authentic / modified flags) and the 8192-round PBKDF2; the real binaries are judged on exit status, existence of the output file and byte equality of the round trip',
                       'I/O faults are injected with an LD_PRELOAD shim at the k-th open/read/write/getrandom for every k the run reaches (error, short write then ENOSPC, EINTR once); asconsum reads through stdio, so its read errors are injected with strace (inject=read:error=EIO:when=k on the data file)',
